@@ -319,6 +319,24 @@ pub fn spaces(tier: Tier) -> Vec<Space<'static>> {
     // only element of an array), and the number's way through the Value encoder and from_slice
     {
         let docs: std::sync::Arc<Vec<(Vec<u8>, Vec<u8>)>> = std::sync::Arc::new(b64.iter().map(|n| (enc(&RVal::Num(*n)), enc(&RVal::Arr(vec![RVal::Num(*n)])))).collect());
+        // the number followed by a further element: after two equal numbers of different width the
+        // walkers must step over each side's own width
+        let docs3: std::sync::Arc<Vec<Vec<u8>>> = std::sync::Arc::new(b64.iter().map(|n| enc(&RVal::Arr(vec![RVal::Num(*n), RVal::u(7)]))).collect());
+        let d3 = docs3.clone();
+        sp.push(Space::new("order-b64xb64 through documents: [n, 7] against [m, 7] and [m, 8]", n as u64, move |i, acc| {
+            let a = b64[i as usize];
+            for (j, b) in b64.iter().enumerate() {
+                acc.eval();
+                let exp = num_cmp(&a, b);
+                let other8 = enc(&RVal::Arr(vec![RVal::Num(*b), RVal::u(8)]));
+                let exp8 = if exp == Ordering::Equal { Ordering::Less } else { exp };
+                let r = guard(|| (jsonb::compare(&d3[i as usize], &d3[j]), jsonb::compare(&d3[i as usize], &other8)));
+                match r {
+                    Ok((Ok(x), Ok(y))) if x == exp && y == exp8 => {}
+                    other => acc.vio("order:compare-on-number-documents-differs-from-exact-value:followed-by-an-element", || json!({"a": format!("{:?}", a), "b": format!("{:?}", b), "expected": format!("{:?}", (exp, exp8)), "observed": format!("{:?}", other.map_err(|p| panic_class(&p)))})),
+                }
+            }
+        }));
         let d1 = docs.clone();
         sp.push(Space::new("order-b64xb64 through documents (compare on encoded numbers, bare and in an array)", n as u64, move |i, acc| {
             let a = b64[i as usize];
